@@ -80,7 +80,7 @@ def on_context(p, r, exc, acc):
 
 
 # ------------------------------------------------------------------ compile-time half: binding site x read site over real templates
-SITES = ["body", "def", "nested-def", "block", "call-body", "control-line"]
+SITES = ["body", "def", "nested-def", "block", "call-body", "control-line", "loop-target", "tag-attribute", "filter-argument"]
 
 
 def source(f):
@@ -91,6 +91,8 @@ def source(f):
         out.append('<%%namespace file="lib_%s" import="%s"/>' % (n, n))
     if f["module_level"]:
         out.append("<%%! %s = 'mod' %%>" % n)
+    if f.get("page_arg"):
+        out.append("<%%page args=\"%s='page'\"/>" % n)
     if f["body_assign"]:
         out.append("<%% %s = 'body' %%>" % n)
     site = f["site"]
@@ -99,11 +101,18 @@ def source(f):
     elif site == "def":
         out.append('<%%def name="d(%s)">%s</%%def>${d(%s)}' % ((n + "='arg'") if f["def_arg"] else "", read, ""))
     elif site == "nested-def":
-        out.append('<%%def name="o()"><%% local_o = 1 %%><%%def name="i(%s)">%s</%%def>${i()}</%%def>${o()}' % ((n + "='arg'") if f["def_arg"] else "", read))
+        out.append('<%%def name="o()"><%% local_o = 1 %%>%s<%%def name="i(%s)">%s</%%def>${i()}</%%def>${o()}' % (
+            ("<%% %s = 'outer' %%>" % n) if f.get("outer_local") else "", (n + "='arg'") if f["def_arg"] else "", read))
     elif site == "block":
         out.append('<%%block name="b">%s</%%block>' % read)
     elif site == "call-body":
         out.append('<%%def name="w()">${caller.body()}</%%def><%%call expr="w()">%s</%%call>' % read)
+    elif site == "loop-target":
+        out.append("%% for %s in ['loop']:\n%s\n%% endfor" % (n, read))
+    elif site == "tag-attribute":
+        out.append('<%%def name="w2(q)">[${q}]</%%def><%%call expr="w2(val(%s))"></%%call>' % n)
+    elif site == "filter-argument":
+        out.append("${'' | pick(%s)}" % n)
     elif site == "control-line":
         out.append("%% for q in one(%s):\n[${val(q)}]\n%% endfor" % n)
     return "\n".join(out)
@@ -113,10 +122,17 @@ def reference(f):
     """the statement's order"""
     site = f["site"]
     in_def = site in ("def", "nested-def")
+    if site == "loop-target":
+        return "loop"
     if in_def and f["def_arg"]:
         return "arg"
+    if site == "nested-def" and f.get("outer_local"):
+        return "outer"            # closure: the enclosing def's local
     if not in_def and site != "block" and f["body_assign"]:
         return "body"             # a variable assigned in the body is a local of the body (and of call bodies / control lines written in it)
+    page_value = "ctx" if f["in_context"] else "page"      # a <%page> argument is bound from the render arguments, else its default
+    if f.get("page_arg") and not in_def and site != "block":
+        return page_value         # page arguments are parameters of the body (a named block only sees those it lists in args=)
     # a named block is rendered through self.<name>(), like a top-level def that is NOT called by name from the body:
     # it sees neither the body's locals nor its current assignments (documented: blocks only receive the page arguments)
     if f["module_level"]:
@@ -125,6 +141,8 @@ def reference(f):
         return "imp"
     if in_def and f["body_assign"]:
         return "body"             # defs called from the body see the current values of its <% %> assignments through the context
+    if in_def and f.get("page_arg"):
+        return page_value         # ... and the body's <%page> arguments
     if f["in_context"]:
         return "ctx"
     if hasattr(_b, f["name"]):
@@ -147,7 +165,7 @@ def render_case(LKmod, RTmod, f):
             return x()
         return x
 
-    data = {"val": val, "one": lambda x: [x]}
+    data = {"val": val, "one": lambda x: [x], "pick": lambda x: (lambda s_: "[%s]" % val(x))}
     if f["in_context"]:
         data[n] = "ctx"
     before = dict(data)
@@ -163,10 +181,14 @@ def render_case(LKmod, RTmod, f):
 
 def h_scopes(p):
     f = dict(name=["v", "format"][p.choose(2, "name")], site=SITES[p.choose(len(SITES), "site")], strict=bool(p.choose(2, "strict")))
-    for k in ("in_context", "module_level", "imported", "body_assign", "def_arg"):
+    for k in ("in_context", "module_level", "imported", "body_assign", "def_arg", "page_arg", "outer_local"):
         f[k] = bool(p.choose(2, k))
     if f["def_arg"] and f["site"] not in ("def", "nested-def"):
         raise core.Abort("argument binding only applies to def sites")
+    if f["outer_local"] and f["site"] != "nested-def":
+        raise core.Abort("enclosing-def local only applies to the nested def site")
+    if f["page_arg"] and f["name"] == "format" and False:
+        raise core.Abort("-")
     out, unchanged = render_case(LK, RT, f)
     return dict(f=f, out=out, unchanged=unchanged)
 
@@ -180,7 +202,9 @@ def on_scopes(p, r, exc, acc):
     # an imported def writes its text at the point of the call: [imp] either way
     acc.tags["asserted"] += 1
     acc.vcs += 2
-    if r["out"] != "[%s]" % want:
+    # an imported def writes its text where it is CALLED (for an attribute / filter argument: before the brackets)
+    flat = lambda t: t.replace("[", "").replace("]", "")
+    if r["out"] != "[%s]" % want and not (want == "imp" and flat(r["out"]) == "imp"):
         acc.candidate(kind="name-resolution", input=dict(flags=f), detail="rendered %r, documented order gives %r" % (r["out"], "[%s]" % want))
     if not r["unchanged"]:
         acc.candidate(kind="caller-data-altered", input=dict(flags=f), detail="the dict passed to render() was modified")
@@ -242,7 +266,7 @@ if "flags" in CASE:
     out, unchanged = C04.render_case(LK, RT, f)
     want = "[%s]" % C04.reference(f)
     print("rendered:", out, " documented:", want)
-    if out != want: bad = "name resolved from the wrong scope"
+    if out != want and not (want == "[imp]" and out.replace("[", "").replace("]", "") == "imp"): bad = "name resolved from the wrong scope"
     if not unchanged: bad = "render() altered the caller's data"
 elif "where" in CASE:
     name, where, el = CASE["name"], CASE["where"], CASE["enable_loop"]
